@@ -218,10 +218,19 @@ class RecArrV:
 class TableV:
     """mapping column name -> array: dict of arrays or pandas DataFrame"""
 
-    def __init__(self, cols, kind="dict"):
+    _index_ids = [0]
+
+    def __init__(self, cols, kind="dict", index_id=None):
         self.cols = dict(cols)
         self.kind = kind
         self.version = 0
+        # identity of the ROW LABELS of a DataFrame (pandas aligns Series and column stores on labels, not positions): a column
+        # read from a DataFrame carries it (ArrV.labels), element-wise results inherit it, and storing a labelled column into a
+        # DataFrame with OTHER labels - or combining two differently labelled columns - is outside the positional model
+        if index_id is None:
+            TableV._index_ids[0] += 1
+            index_id = ("rows", TableV._index_ids[0])
+        self.index_id = index_id
         stamp(self)
 
     def copy(self, deep=False):
@@ -230,8 +239,8 @@ class TableV:
             for k, a in self.cols.items():
                 f = a.cur()
                 cols[k] = ArrV(a.shape, f, a.dtype)
-            return TableV(cols, self.kind)
-        return TableV(self.cols, self.kind)
+            return TableV(cols, self.kind, self.index_id)
+        return TableV(self.cols, self.kind, self.index_id)
 
 
 class ObjV:
